@@ -102,7 +102,11 @@ def run_scenario(d, y, scenario, user_structure, simple, r, idx):
             s = samm.Sample(g, p2, bam)
             if not user_structure:
                 s._dump_cn = s._load_cn_region(bam, None, cnr)
-        meas["avg_cov"] = lib.frac(float(s.coverage.average_coverage()))
+        avg = float(s.coverage.average_coverage())
+        if avg != avg or avg in (float("inf"), float("-inf")):
+            meas["avg_not_a_number"] = repr(avg)
+            avg = 0.0
+        meas["avg_cov"] = lib.frac(avg)
         cnv = s._dump_cn if not user_structure else {}
         meas["neutral_sum"] = lib.frac(sum(cnv.get(i, 0) for i in range(cnr.start, cnr.end)))
     except Exception as e:
@@ -184,7 +188,9 @@ def tie(ctx):
         fam["guard_table"]["cases"] += 1
         real = res["outcome"]
         real_cls = "proceed" if real["kind"] == "call" or real.get("class") in ("cn_too_low",) or str(real.get("class", "")).startswith("other") else real["class"]
-        if o["out"] != real_cls:
+        if res["meas"].get("avg_not_a_number"):
+            fam["guard_table"]["disagreements"].append({"why": f"scenario {c['scenario']}: the average depth the implementation computes is {res['meas']['avg_not_a_number']}, not a number the guard can compare (the model's depth is a rational)", "input": inp})
+        elif o["out"] != real_cls:
             fam["guard_table"]["disagreements"].append({"why": f"scenario {c['scenario']} (user_structure={c['user_structure']}): implementation {real_cls} ({real.get('msg', real.get('diplotypes'))}), model guard says {o['out']} on {res['meas']}", "input": inp})
         why = oracle(c, res)
         if why:
